@@ -15,7 +15,7 @@ from vmon.libutil import lib_warnings, load_definition, monitored
 
 LEVEL = "exploration"
 SHARDS = {"quick": 16, "thorough": 16}
-MUST = ["histories", "outputs.joined", "outputs.single", "model.orphans", "model.gaps", "model.superseded", "wraparound.groups"]
+MUST = ["histories", "outputs.joined", "outputs.single", "model.orphans", "model.gaps", "model.superseded", "wraparound.groups", "with_prefix_bytes"]
 RULE = ("history = sequence of (flag, apid, in-sequence|gap) symbols turned into real CCSDS packets with unique ids and "
         "fed to packet_generator(combine_segmented_packets=True, secondary_header_bytes=s) as one byte stream; the "
         "recorded outputs (raw bytes of each yielded packet, warnings per step) are compared with a per-APID state "
@@ -102,11 +102,15 @@ def shape(history):
     return "".join(f"{f}{a}{g_(g)}" for f, a, g in history)
 
 
-def run_history(ctx, defn, history, sh, start, apids, sample=False):
+def run_history(ctx, defn, history, sh, start, apids, sample=False, k=None):
     pkts = make_packets(history, start, apids)
     steps, trailing = model(pkts, sh, ctx)
-    stream = b"".join(p["raw"] for p in pkts)
-    gen = defn.packet_generator(stream, combine_segmented_packets=True, secondary_header_bytes=sh)
+    if k is None:
+        k = (0, 0, 0, 4, 2)[(len(history) * 7 + sh + start) % 5]     # foreign prefix bytes before every raw packet
+    if k:
+        ctx.count("with_prefix_bytes")
+    stream = b"".join(bytes([0xEE]) * k + p["raw"] for p in pkts)
+    gen = defn.packet_generator(stream, combine_segmented_packets=True, secondary_header_bytes=sh, skip_header_bytes=k)
     got = []
     end = None
     states = set()
@@ -131,7 +135,7 @@ def run_history(ctx, defn, history, sh, start, apids, sample=False):
     seg = any(f != "U" for f, _, _ in history)
     if seg:
         ctx.sig(shape(history) if len(history) <= 5 else shape(history[:5]) + f"+{len(history) - 5}", sh)
-    wit = {"history": shape(history), "secondary_header_bytes": sh, "start_counter": start,
+    wit = {"history": shape(history), "secondary_header_bytes": sh, "start_counter": start, "skip_header_bytes": k,
            "seqs": [p["seq"] for p in pkts], "model_outputs": [c for _, c, _ in steps],
            "got_outputs": [ids_in(b, pkts) for b, _ in got]}
     if sample:
